@@ -18,8 +18,47 @@ CHECKS = {
              "the right level for a pure integer function whose branches (remainder, n_batches>n_tasks) all lie inside the bound.",
         note="Trusts numpy slicing and the ModelPool model of multiprocess.Pool.map (contiguous chunks, any order).",
     ),
-}
 
+    "C08": dict(
+        engine=E1, category="exploration", design="§4 C08",
+        technique="exhaustive enumeration of survey assignments (all surjections of <=6 epochs onto <=3 surveys, ties, list/dict forms, orders) against a tagged-observation oracle and the reference marginal likelihood",
+        text="Every interleaving of up to 6 epochs over up to 3 surveys, with identical epochs, every input form and survey order, is run through "
+             "validate_prepare_data and (sub-product) marginal_ln_likelihood; each merged row is traced back to its survey by a unique tag. "
+             "Bounded-exhaustive over the layouts the statement quantifies over; numbers are fixed tags so only structure is explored.",
+        note="Trusts astropy Time/Quantity and the reference marginal (long-double Cholesky). For dict input only the partition structure is demanded.",
+    ),
+    "C15": dict(
+        engine=E1 + " + " + E3, category="exploration", design="§4 C15",
+        technique="exhaustive enumeration of time/NaN/inf patterns, covariance permutations and copy/slice chains against a list-of-triples model",
+        text="All time tuples of length <=3/4 over {t1<t2<t3,NaN}, all non-finite placements, clean, input format, unit, t_ref choices, all "
+             "permutations of a 3-epoch covariance problem, and all chains (depth 2/3) of copy and every slice/index/mask are compared with a "
+             "boring list-of-triples model; differential check that chained states equal directly built ones.",
+        note="clean=False with non-finite input and all-dropped inputs are outside the statement and skipped. Trusts astropy.",
+    ),
+    "C17": dict(
+        engine=E1 + " + " + E3, category="exploration", design="§4 C17",
+        technique="exhaustive enumeration of small sample tables (sign/angle/unit/metadata alphabets), all index expressions and operation chains against a reference table model and an independent Kepler solver",
+        text="Every K sign pattern for N<=3/4 rows with rotated omega alphabet, angle/K/P units and metadata runs through wrap_K, get_t0, "
+             "pack/unpack, all index expressions, copy, mean/std, median_period; chains of depth 3/4 over 7 operations (incl. HDF5 round trip) "
+             "are compared step by step and against directly built states.",
+        note="Trusts astropy units/Time; twobody's orbit is compared against the independent reference solver on a time grid.",
+    ),
+    "C18": dict(
+        engine=E1, category="exploration", design="§4 C18",
+        technique="exhaustive enumeration of single (and paired) mutilations of every prior parameter, non-Normal linear priors, data/prior count matrix and constructor arguments; accept/refuse oracle",
+        text="Every single mutilation of every parameter for three (poly_trend, n_offsets) shapes, 12 non-Normal families on every linear "
+             "parameter, valid variations, mutilation x variation pairs, JokerPrior.default argument errors, all data forms x source counts x "
+             "offset counts, TheJoker.__init__ arguments: accepted iff valid.",
+        note="Any exception counts as refusal; single-source covariance data is 'either'.",
+    ),
+    "C19": dict(
+        engine=E1, category="exploration", design="§4 C19",
+        technique="exhaustive enumeration of observation subsets of a rational phase lattice x periods x bins x input orders, and of all small (ln_prior, ln_likelihood) tables, against exact rational definitions",
+        text="All subsets (<=4/5) of a 14-point phase lattice x 3 periods x 3 bin counts x input orders + time reversal are compared with exact "
+             "rational-arithmetic definitions of the diagnostics; all MAP tables with <=3/4 rows over a 9-letter alphabet.",
+        note="Trusts astropy Time arithmetic; an observation exactly whole cycles after the reference may fall in the first or last bin.",
+    ),
+}
 NOT_YET = {}
 
 
